@@ -108,7 +108,7 @@ def _alarm(signum, frame):
 def _child(task):
     import signal
 
-    prop, inst, mode_d, caps = task
+    prop, inst, mode_d, caps = task[:4]
     t0 = time.time()
     hard = int(caps.get("task_wall_cap", 900))
     try:
@@ -123,7 +123,8 @@ def _child(task):
             core.RLIMIT = mod.RLIMIT
         mode = Mode(mode_d.get("known", ()), mode_d.get("confirm"))
         r = core.explore(_body(mod, inst["fn"], inst["params"], mode), max_paths=caps.get("max_paths", 200000),
-                         wall_cap=caps.get("wall_cap", max(hard - 60, 60)))  # normally explore() itself stops between two paths
+                         wall_cap=caps.get("wall_cap", max(hard - 60, 60)),  # normally explore() itself stops between two paths
+                         crosscheck=int(task[4]) if len(task) > 4 else 0)
     except _TaskTimeout:
         core.CTX = None
         r = dict(result="inconclusive", why="task wall-clock safety net (%d s) hit" % hard)
@@ -157,6 +158,80 @@ def source_hashes(mod):
         except Exception as e:  # noqa
             out.append({"function": repr(f), "error": str(e)})
     return out
+
+
+def _worker(conn):
+    while True:
+        try:
+            t = conn.recv()
+        except EOFError:
+            return
+        if t is None:
+            return
+        conn.send(_child(t))
+
+
+def _run_pool(tasks, jobs, maxtasks):
+    """fork workers fed over pipes, with a parent-side watchdog: a worker that exceeds its task's wall cap by more than 90 s (a solver call that
+    does not return, which no Python-level signal handler can interrupt) is killed and its task recorded as inconclusive; a worker that dies is
+    recorded as an error.  Results come back in completion order."""
+    import multiprocessing.connection as mpc
+
+    ctx = multiprocessing.get_context("fork")
+    pending = list(tasks)
+    workers, results = [], []
+
+    def spawn():
+        pc, cc = ctx.Pipe()
+        pr = ctx.Process(target=_worker, args=(cc,), daemon=True)
+        pr.start()
+        cc.close()
+        return dict(proc=pr, conn=pc, task=None, t0=0.0, n=0)
+
+    def lost(w, result, why):
+        t = w["task"]
+        results.append(dict(result=result, why=why, key=t[1]["key"], fn=t[1]["fn"], params=t[1]["params"], mode=t[2], wall_s=time.time() - w["t0"]))
+
+    def retire(w, kill=False):
+        try:
+            if kill:
+                w["proc"].kill()
+            else:
+                w["conn"].send(None)
+            w["proc"].join(10)
+            w["conn"].close()
+        except Exception:  # noqa
+            pass
+        workers.remove(w)
+
+    while pending or any(w["task"] is not None for w in workers):
+        while pending and len(workers) < jobs:
+            workers.append(spawn())
+        for w in workers:
+            if w["task"] is None and pending:
+                w["task"], w["t0"] = pending.pop(0), time.time()
+                w["n"] += 1
+                w["conn"].send(w["task"])
+        busy = [w for w in workers if w["task"] is not None]
+        ready = mpc.wait([w["conn"] for w in busy], timeout=1.0)
+        for w in list(busy):
+            if w["conn"] in ready:
+                try:
+                    results.append(w["conn"].recv())
+                    w["task"] = None
+                    if w["n"] >= maxtasks:
+                        retire(w)
+                except (EOFError, OSError):
+                    lost(w, "error", "worker process died (exit code %s)" % w["proc"].exitcode)
+                    retire(w, kill=True)
+            else:
+                hard = int(w["task"][3].get("task_wall_cap", 900))
+                if time.time() - w["t0"] > hard + 90:
+                    lost(w, "inconclusive", "worker killed by the watchdog %d s after its %d s wall cap (a solver call did not return)" % (90, hard))
+                    retire(w, kill=True)
+    for w in list(workers):
+        retire(w)
+    return results
 
 
 def replay(prop, path):
@@ -207,20 +282,34 @@ def main(argv=None):
                 continue
             if i["fn"] == k["fn"] and (k.get("key_contains") is None or k["key_contains"] in i["key"]):
                 tasks.append((prop, i, {"known": known_ids, "confirm": k["id"]}, caps))
+    # second solver: the final queries (first two paths) of a sample of the instances are decided again by cvc5
+    step = max(1, len(tasks) // (60 if a.tier == "quick" else 300))
+    tasks = [t + ((2 if i % step == 0 else 0),) for i, t in enumerate(tasks)]
     # longest first where the harness gives a weight
     tasks.sort(key=lambda t: -t[1].get("weight", 1))
+    # engine self-check (differential validation of the proxy semantics against the installed Python/NumPy) runs alongside on one core
+    selfcheck = None
+    if not a.only and not os.environ.get("VERIF_NO_SELFCHECK"):
+        selfcheck = subprocess.Popen([sys.executable, "-m", "symx.selfcheck"], cwd=ROOT, stdout=subprocess.PIPE, stderr=subprocess.PIPE, text=True)
     results = []
     if a.jobs <= 1 or len(tasks) <= 1:
         for t in tasks:
             results.append(_child(t))
     else:
-        ctx = multiprocessing.get_context("fork")
-        with ctx.Pool(min(a.jobs, len(tasks)), maxtasksperchild=getattr(mod, "MAXTASKS", 50)) as pool:
-            for r in pool.imap_unordered(_child, tasks, chunksize=1):
-                results.append(r)
+        results = _run_pool(tasks, min(a.jobs, len(tasks)), getattr(mod, "MAXTASKS", 50))
     # ---- verdicts
     os.makedirs(os.path.join(ROOT, "replays"), exist_ok=True)
     violations, inconcl, errors, known_lines = [], [], [], []
+    selfcheck_summary = None
+    if selfcheck is not None:
+        try:
+            so, se = selfcheck.communicate(timeout=600)
+            selfcheck_summary = json.loads(so.strip().splitlines()[-1])
+            if selfcheck.returncode != 0 or selfcheck_summary.get("mismatches", 1) != 0:
+                errors.append(dict(key="symx.selfcheck", result="error", why="proxy semantics disagree with the installed Python/NumPy: %s" % so[-800:]))
+        except Exception as e:  # noqa
+            selfcheck.kill()
+            errors.append(dict(key="symx.selfcheck", result="error", why="engine self-check did not complete: %s" % e))
     confirmed_known = set()
     replayed_per_fn = {}
     unreplayed = 0
@@ -307,7 +396,10 @@ def main(argv=None):
                                   sorted(results, key=lambda r: -r.get("task_wall_s", 0))[:5]],
             "engine": "symx (z3 %s)" % __import__("z3").get_version_string(),
             "checker_cmd": "./check %s --tier %s" % (prop, a.tier),
-            "trusted_base": ["z3", "symx proxy semantics (validated by symx.selfcheck)", "reference models in harness/%s.py" % prop.lower()],
+            "engine_selfcheck": selfcheck_summary or "skipped (--only run)",
+            "second_solver": {"solver": "cvc5 (python wheel) on z3's SMT-LIB print of the final query, 3 s limit", "queries_agreeing": tot("cvc5_agree"),
+                              "cvc5_unknown_or_timeout": tot("cvc5_unknown"), "disagreements": tot("cvc5_disagree"), "unavailable": tot("cvc5_unavailable")},
+            "trusted_base": ["z3", "symx proxy semantics (validated in this run by symx.selfcheck, see engine_selfcheck)", "reference models in harness/%s.py" % prop.lower()],
             "exhaustive": False,
         },
         "assumptions": getattr(mod, "ASSUMPTIONS", []),
